@@ -543,6 +543,9 @@ func TestCheck(t *testing.T) {
 			return func(t *rapid.T) {
 				cs, cl := genCase(t, path)
 				cl2, nt := "", false
+				if jr, err := json.Marshal(cs); err == nil {
+					hx.JournalCase("dm_roundtrip", jr) // classify already runs the encoder
+				}
 				if !hx.Aborted() {
 					var e error
 					if e = hx.Watch("classify", func() error { cl2, nt = classify(cs); return nil }); e != nil {
@@ -651,6 +654,7 @@ func TestCheck(t *testing.T) {
 							}
 							cs := Case{Text: text, Path: "codewords"}
 							raw, _ := json.Marshal(cs)
+							hx.JournalCase("dm_roundtrip", raw)
 							if err := hx.Safe(func() error { return check(raw) }); err != nil {
 								stop = !c.Enum("mode_tails_exhaustive", "dm_roundtrip", cs, nil)
 							}
@@ -788,6 +792,7 @@ func TestCheck(t *testing.T) {
 						}
 						cs := Case{Text: text, Path: "codewords"}
 						raw, _ := json.Marshal(cs)
+						hx.JournalCase("dm_roundtrip", raw)
 						if err := hx.Safe(func() error { return check(raw) }); err != nil {
 							stop = !c.Enum("run_lengths_exhaustive", "dm_roundtrip", cs, nil)
 						}
